@@ -567,3 +567,119 @@ func RunJobs(pkg string) {
 func (v *T) ShapeTensor(name string, dims []int) tensor.Tensor {
 	return tensor.New(tensor.WithShape(dims...), tensor.Of(tensor.Float32))
 }
+
+// DtypeUniverse is the element-type universe (the order of ops.AllTypes).
+var DtypeUniverse = []tensor.Dtype{
+	tensor.Uint8, tensor.Uint16, tensor.Uint32, tensor.Uint64,
+	tensor.Int8, tensor.Int16, tensor.Int32, tensor.Int64,
+	tensor.Float32, tensor.Float64,
+	tensor.Complex64, tensor.Complex128,
+	tensor.String, tensor.Bool,
+}
+
+// DtypeTensor is a one-element tensor whose element type is symbolic
+// (symbol name+".dtype", an index into DtypeUniverse).
+func (v *T) DtypeTensor(name string) tensor.Tensor {
+	idx := v.IntIn(name+".dtype", 0, 13)
+	return tensor.New(tensor.Of(DtypeUniverse[idx]), tensor.WithShape(1))
+}
+
+// Fingerprint renders all state reachable from x (pointers followed, unexported
+// fields included) as a string; used to compare operator instances.
+func (v *T) Fingerprint(x interface{}) string {
+	return fingerprint(reflect.ValueOf(x), 0, map[uintptr]bool{})
+}
+
+func fingerprint(x reflect.Value, depth int, seen map[uintptr]bool) string {
+	if depth > 12 {
+		return "..."
+	}
+	if !x.IsValid() {
+		return "nil"
+	}
+	switch x.Kind() {
+	case reflect.Bool:
+		return fmt.Sprint(x.Bool())
+	case reflect.Int, reflect.Int8, reflect.Int16, reflect.Int32, reflect.Int64:
+		return fmt.Sprint(x.Int())
+	case reflect.Uint, reflect.Uint8, reflect.Uint16, reflect.Uint32, reflect.Uint64, reflect.Uintptr:
+		return fmt.Sprint(int64(x.Uint()))
+	case reflect.Float32, reflect.Float64:
+		return fmt.Sprint(x.Float())
+	case reflect.String:
+		return strconv.Quote(x.String())
+	case reflect.Struct:
+		if x.Type() == reflect.TypeOf(tensor.Dtype{}) {
+			for i, d := range DtypeUniverse {
+				if !x.Field(0).IsNil() && reflect.ValueOf(d.Type).Pointer() == x.Field(0).Elem().Pointer() {
+					return []string{"Uint8", "Uint16", "Uint32", "Uint64", "Int8", "Int16", "Int32", "Int64", "Float32", "Float64", "Complex64", "Complex128", "String", "Bool"}[i]
+				}
+			}
+			return "dtype?"
+		}
+		var p []string
+		for i := 0; i < x.NumField(); i++ {
+			p = append(p, fingerprint(x.Field(i), depth+1, seen))
+		}
+		return "{" + strings.Join(p, " ") + "}"
+	case reflect.Array:
+		var p []string
+		for i := 0; i < x.Len(); i++ {
+			p = append(p, fingerprint(x.Index(i), depth+1, seen))
+		}
+		return "[" + strings.Join(p, " ") + "]"
+	case reflect.Slice:
+		if x.IsNil() {
+			return "[]"
+		}
+		var p []string
+		for i := 0; i < x.Len(); i++ {
+			p = append(p, fingerprint(x.Index(i), depth+1, seen))
+		}
+		return "[" + strings.Join(p, " ") + "]"
+	case reflect.Ptr:
+		if x.IsNil() {
+			return "nil"
+		}
+		if t, ok := tensorOf(x); ok {
+			return "tensor" + fmt.Sprint([]int(t.Shape()))
+		}
+		if seen[x.Pointer()] {
+			return "&cycle"
+		}
+		seen[x.Pointer()] = true
+		return "&" + fingerprint(x.Elem(), depth+1, seen)
+	case reflect.Interface:
+		if x.IsNil() {
+			return "nil"
+		}
+		return fingerprint(x.Elem(), depth+1, seen)
+	case reflect.Map:
+		if x.IsNil() {
+			return "map[]"
+		}
+		var p []string
+		it := x.MapRange()
+		for it.Next() {
+			p = append(p, fingerprint(it.Key(), depth+1, seen)+":"+fingerprint(it.Value(), depth+1, seen))
+		}
+		sort.Strings(p)
+		return "map[" + strings.Join(p, " ") + "]"
+	case reflect.Func:
+		if x.IsNil() {
+			return "func:nil"
+		}
+		return "func"
+	}
+	return "<" + x.Kind().String() + ">"
+}
+
+func tensorOf(x reflect.Value) (tensor.Tensor, bool) {
+	if x.Type() == reflect.TypeOf((*tensor.Dense)(nil)) && x.CanInterface() {
+		return x.Interface().(*tensor.Dense), true
+	}
+	if x.Type() == reflect.TypeOf((*tensor.Dense)(nil)) {
+		return reflect.NewAt(x.Type().Elem(), x.UnsafePointer()).Interface().(*tensor.Dense), true
+	}
+	return nil, false
+}
